@@ -28,6 +28,8 @@ var c20Ops = []c20op{
 	{set: true, key: "K2", val: "'x'"},
 	{set: false, key: "k1"},
 	{set: false, key: "K2"},
+	{set: true, key: "k1", val: "GETVAR('K2')"}, // an immediate call nested in the value argument
+	{set: true, key: "k1", val: "'1'"},          // a string that prints like the number 1
 }
 
 type c20query struct {
@@ -143,6 +145,10 @@ func (p *c20) model(q *c20query, vars map[string]any) []string {
 					v = row["a"]
 				case "'x'":
 					v = "x"
+				case "'1'":
+					v = "1"
+				case "GETVAR('K2')":
+					v = vars["K2"]
 				}
 				vars[op.key] = v
 			} else {
@@ -256,7 +262,7 @@ func (p *c20) RunCase(i int) *core.CaseResult {
 
 func (p *c20) Meta() core.Meta {
 	return core.Meta{
-		Rule:        "explicit-state search over the shared variable map: one case per first select list (every sequence of 1..3 operations over {SETVAR(k1,1), SETVAR(k1,a), SETVAR(k2,'x'), GETVAR(k1), GETVAR(k2)}) run on 4 tables (0-3 rows) with/without WHERE from 3 initial maps; every distinct reached map is expanded breadth-first by every follow-up query (sequences of <= 2 operations x tables x WHERE) to depth 2 (thorough 3); a successor is the shortest path replayed on a fresh map plus one query; every step is compared with a sequential register model (rows, absence of SETVAR columns, caller's map). non-trivial = the first query ran on a non-empty table and left a non-empty map",
+		Rule:        "explicit-state search over the shared variable map: one case per first select list (every sequence of 1..3 operations over {SETVAR(k1,1), SETVAR(k1,a), SETVAR(K2,'x'), GETVAR(k1), GETVAR(K2), SETVAR(k1,GETVAR(K2)), SETVAR(k1,'1')}) run on 4 tables (0-3 rows) with/without WHERE from 3 initial maps; every distinct reached map is expanded breadth-first by every follow-up query (sequences of <= 2 operations x tables x WHERE) to depth 2 (thorough 3); a successor is the shortest path replayed on a fresh map plus one query; every step is compared with a sequential register model (rows, absence of SETVAR columns, caller's map). non-trivial = the first query ran on a non-empty table and left a non-empty map",
 		Assumptions: []string{"evaluation order = rows in source order, select-list items left to right (the property's statement)", "values stored are numbers and strings; keys are string literals"},
 		Bounds:      map[string]any{"first_lists": len(p.lists), "followup_queries": len(p.queries), "depth": p.depth},
 		Exhaustive:  true,
